@@ -1277,7 +1277,7 @@ func (l *ccLog) InsertUnresolvedContracts(r []*channeldb.ResolverReport,
 
 	name := "InsertUnresolvedContracts"
 	if len(res) == 1 {
-		name = fmt.Sprintf("Checkpoint(%T)", res[0])
+		name = ccCheckpointName(res[0])
 	}
 
 	return l.inc.effect(name, func() error {
@@ -1363,9 +1363,17 @@ func (l *ccLog) checkpoint(inner func(ContractResolver,
 	...*channeldb.ResolverReport) error {
 
 	return func(r ContractResolver, rep ...*channeldb.ResolverReport) error {
-		return l.inc.effect(fmt.Sprintf("Checkpoint(%T)", r),
+		return l.inc.effect(ccCheckpointName(r),
 			func() error { return inner(r, rep...) })
 	}
+}
+
+func ccCheckpointName(r ContractResolver) string {
+	if r.IsResolved() {
+		return fmt.Sprintf("Checkpoint(%T,resolved)", r)
+	}
+
+	return fmt.Sprintf("Checkpoint(%T)", r)
 }
 
 // ccMemLog is a straightforward in-memory ArbitratorLog.
